@@ -3,6 +3,7 @@
     instantiated with R, [exp], [ln]. Only these theorems may depend on the classical axioms of the
     standard library's real numbers. *)
 From SKN Require Import Base.Util Model.Gnn.
+Set Warnings "-notation-overridden,-ambiguous-paths".
 From Coq Require Import Reals Lra.
 From Coquelicot Require Import Coquelicot.
 
